@@ -26,14 +26,15 @@ REQUIRED_NONZERO = {"*": ["toggles", "probes", "probe_reject_expected", "probe_a
 def budget(tier):
     if tier == "thorough":
         return {"runs": 3000, "wall": 3000}
-    return {"runs": 320, "wall": 600}
+    return {"runs": 480, "wall": 600}
 
 
 def generate(seed, tier):
     st = Streams(seed)
     rng = st.prog
     depth = rng.choice([1, 2, 2, 3, 3])
-    classes = progs.hierarchy(rng, depth)
+    with_list = rng.random() < 0.4
+    classes = progs.hierarchy(rng, depth, with_list=with_list)
     names = [c["name"] for c in classes]
     # container with a sub-object and a list of objects of hierarchy classes
     inner = rng.choice(names)
@@ -41,7 +42,7 @@ def generate(seed, tier):
     cont = {"name": "T0", "fields": [
         {"n": "x", "k": "s", "w": 3, "s": False, "r": True, "i": 0},
         {"n": "o", "k": "o", "c": inner, "r": True},
-        {"n": "ol", "k": "lo", "c": inner2, "r": True, "sz": rng.randint(1, 2)}],
+        {"n": "ol", "k": "lo", "c": inner2, "r": True, "sz": 0 if with_list else rng.randint(1, 2)}],
         "blocks": [{"n": "ct", "stmts": [progs.simple_stmt(rng, [{"n": "x", "k": "s", "w": 3, "s": False, "_p": ["x"]}])]}]}
     prog = {"enums": [], "classes": progs.strip(classes) + [cont]}
     P = refsem.Prog(prog)
@@ -75,7 +76,7 @@ def generate(seed, tier):
             path = []
             cn = c
             if c == "T0" and orng.random() < 0.7:
-                if orng.random() < 0.5:
+                if orng.random() < 0.5 or with_list:
                     path, cn = ["o"], inner
                 else:
                     f = P.field("T0", "ol")
@@ -83,12 +84,37 @@ def generate(seed, tier):
             blks = [b["n"] for b in P.blocks(cn)]
             ops.append({"op": "cmode", "p": p, "path": path, "block": orng.choice(blks),
                         "on": orng.random() < 0.35})
+        elif with_list and r < 0.58:
+            # the list grows (or is cleared) while blocks may be switched off
+            lp = ["o", "lst"] if c == "T0" else ["lst"]
+            if orng.random() < 0.8:
+                ops.append({"op": "lappend", "p": p, "path": lp, "v": orng.randint(0, 7)})
+            else:
+                ops.append({"op": "lclear", "p": p, "path": lp})
         elif r < 0.85:
             ops.append({"op": "randomize", "p": p})
         else:
             fs = progs.fields_with_paths({"fields": P.fields(c)})[0]
+            fs = [f for f in fs if f["k"] == "s"]
             ops.append({"op": "rw", "p": p,
                         "inline": [progs.simple_stmt(orng, fs)] if fs else []})
+    if with_list:
+        # episodes: block off, calls, the list grows, block on again, calls
+        fe = [b for b in P.blocks(names[-1]) if b["n"].endswith("fe")][0]["n"]
+        for _ in range(orng.randint(1, 2)):
+            cands = [i for i, c in enumerate(created)]
+            p = orng.choice(cands)
+            c = created[p]
+            path = ["o"] if c == "T0" else []
+            lp = path + ["lst"]
+            ep = [{"op": "cmode", "p": p, "path": path, "block": fe, "on": False},
+                  {"op": "randomize", "p": p}]
+            for _k in range(orng.randint(1, 3)):
+                ep.append({"op": "lappend", "p": p, "path": lp, "v": orng.randint(0, 7)})
+            ep += [{"op": "cmode", "p": p, "path": path, "block": fe, "on": True},
+                   {"op": "randomize", "p": p}, {"op": "randomize", "p": p}]
+            at = orng.randint(2 * len(created), len(ops))
+            ops[at:at] = ep
     for c in pending:
         create(c)
         ops.append({"op": "randomize", "p": len(created) - 1})
